@@ -14,6 +14,7 @@ import (
 	"strconv"
 	"strings"
 	"testing"
+	"time"
 )
 
 type tapeEntry struct {
@@ -236,9 +237,10 @@ func ObserverCalls() int                  { return 0 }
 
 func Go(f func())    { go f() }
 func Yield()         {}
-func Sleep(d int64)  {}
-func Advance(d int64) {}
-func Now() int64     { return 0 }
+// natively time is real: virtual-time harnesses are only approximated
+func Sleep(d int64)   { time.Sleep(time.Duration(d)) }
+func Advance(d int64) { time.Sleep(time.Duration(d)) }
+func Now() int64      { return time.Now().UnixNano() }
 func Settle()        {}
 func LockStats() (acquisitions, cycle, blockedHolding int) { return 0, 0, 0 }
 func HeldLocks() int { return 0 }
